@@ -339,6 +339,8 @@ def main(tier):
     c05_skip.rank_loop_rule(gprog, chk, "C05g", ("src/",), 150)
     # C05r: a rank of one data base (loop bounded by its sample count) never addresses a sample of another one (data / target
     # sources only: the pair statistics of src/Stats take two data bases that must match sample by sample, by documented contract)
+    # C05i: the gates combined in one condition address the same sample
+    c05_skip.same_sample_gates_rule(prog, chk, "C05i", ("src/",), 1)
     # C05n: a mean over the defined / active samples is divided by the count of those samples (sum and counter behind the same guards)
     c05_skip.guard_agreement_rule(gprog, chk, "C05n", ("src/",), 25, accepted={
         ("dbStatisticsVariables", "metal", "neff"): "Q (metal quantity) and B (conventional benefit) of the selectivity statistics are by definition the quantity above the cutoff relative to ALL the defined values",
